@@ -260,7 +260,7 @@ pub fn transmission_sweep(ctx: &Ctx) -> Acc {
 /// schedule afterwards is the one without it; a genuine response is delivered.
 pub fn forgery_sweep(ctx: &Ctx) -> Acc {
     let mut acts = Vec::new();
-    for auth in [Auth::Sha1(2), Auth::None, Auth::Sha1Flipped(1), Auth::Sha1(0), Auth::Sha256(2), Auth::Sha1(1), Auth::Sha256(1), Auth::Both(1), Auth::Sha256Trunc(1), Auth::Sha256Trunc(2), Auth::Sha256Flipped(1)] {
+    for auth in [Auth::Sha1(2), Auth::None, Auth::Sha1Flipped(1), Auth::Sha1(0), Auth::Sha256(2), Auth::Sha1(1), Auth::Sha256(1), Auth::Both(1), Auth::Sha256Trunc(1), Auth::Sha256Trunc(2), Auth::Sha256Flipped(1), Auth::MixedSha1Good(1), Auth::MixedSha256Good(1), Auth::MixedSha256Good(2)] {
         acts.push(Act::Resp { id: 0, class: 2, auth, from: 0 });
     }
     acts.push(Act::Resp { id: 0, class: 3, auth: Auth::None, from: 2 });
